@@ -373,6 +373,34 @@ fn fse_case(cx: &mut Cx, preset: &str, api: u64, data: &[u8], first: Option<&[u8
     }
 }
 
+/// One FseDecoder object decodes a sequence of streams (each produced by a fresh adaptive encoder): whatever the decoder keeps
+/// from one stream (a table, buffers) must not leak into the next.  case: {cell:"fse_seq", preset, payloads}
+fn fse_decoder_sequence(cx: &mut Cx, preset: &str, payloads: &[Vec<u8>], tag: &str) {
+    let cell = format!("fse/{}/decoder_reuse", preset);
+    let cj = json!({"cell": "fse_seq", "preset": preset, "tag": tag, "payloads": payloads});
+    cx.sum.eval(&cell, &key_of(&cell, &cj), payloads.iter().any(|p| p.len() >= 2));
+    cx.sum.dist(&format!("fse_seq_{}", tag));
+    let cfg = fse_config(preset);
+    let r = guarded(|| -> Result<Option<String>, String> {
+        let mut dec = FseDecoder::with_config(cfg.clone()).map_err(|e| format!("decoder refused: {}", e))?;
+        for (i, p) in payloads.iter().enumerate() {
+            let z = match FseEncoder::new(cfg.clone()).and_then(|mut e| e.compress(p)) { Ok(z) => z, Err(_) => continue };
+            match dec.decompress(&z) {
+                Ok(o) if &o == p => {}
+                Ok(o) => return Ok(Some(format!("stream {} of the sequence decodes wrongly on the reused decoder: {}", i, diff_at(p, &o)))),
+                Err(e) => return Ok(Some(format!("stream {} of the sequence: decompress failed on the encoder's own output: {}", i, e))),
+            }
+        }
+        Ok(None)
+    });
+    match r {
+        Err(p) => cx.sum.fail(&cell, None, cj, &format!("panicked: {}", p)),
+        Ok(Err(_)) => cx.sum.dist("fse_refused"),
+        Ok(Ok(Some(m))) => cx.sum.fail(&cell, None, cj, &m),
+        Ok(Ok(None)) => cx.sum.dist("fse_seq_roundtrips"),
+    }
+}
+
 fn fse_coq(cx: &mut Cx, cfg: &FseConfig, data: &[u8], bytes: &[u8], cj: &Value) {
     // The normalised table is read from the real FseTable (the f64 normaliser is an oracle of the model).
     // op 110: a = table, expect = the 5 fields of every encoding symbol          (init_enc_symbol)
@@ -557,6 +585,10 @@ fn run_one(cx: &mut Cx, c: &Value) -> bool {
             let dict = if c["dict"].is_null() { None } else { Some(bytes_of(&c["dict"])) };
             fse_case(cx, c["preset"].as_str().unwrap_or("default"), c["api"].as_u64().unwrap_or(0), &data, first.as_deref(), dict.as_deref(), &tag, true);
         }
+        "fse_seq" => {
+            let ps: Vec<Vec<u8>> = c["payloads"].as_array().map(|a| a.iter().map(bytes_of).collect()).unwrap_or_default();
+            fse_decoder_sequence(cx, c["preset"].as_str().unwrap_or("default"), &ps, &tag);
+        }
         "lz" => lz_case(cx, c["which"].as_u64().unwrap_or(0), c["min"].as_u64().unwrap_or(3) as usize, c["max"].as_u64().unwrap_or(258) as usize,
                         c["window"].as_u64().unwrap_or(32768) as usize, &data, &bytes_of(&c["train"]), &tag, true),
         "parallel" => parallel_case(cx, &data, &tag),
@@ -724,6 +756,35 @@ pub fn run_cells(sum: &mut Summary, shards: &mut CoqShards, rng: &mut Rng, args:
         let mut first = training(r, &d, rel);
         if first.len() < 100 && i % 2 == 0 { let extra = payload(r, 120, 3); first.extend(extra); }
         for p in ["realtime", "default"] { fse_case(&mut cx, p, 0, &d, Some(&first), None, &format!("reuse_{}", rel_name(rel)), false); }
+    }
+    // one decoder object over a sequence of streams: sub-alphabets with equal counts, super-alphabets, repeats, the stored form
+    {
+        let shuffle = |r: &mut Rng, mut v: Vec<u8>| -> Vec<u8> { for i in (1..v.len()).rev() { let j = r.below(i as u64 + 1) as usize; v.swap(i, j); } v };
+        let mk = |r: &mut Rng, spec: &[(u8, usize)]| -> Vec<u8> { let mut v = vec![]; for &(b, n) in spec { v.extend(std::iter::repeat(b).take(n)); } shuffle(r, v) };
+        for p in PRESETS {
+            let a = mk(r, &[(b'a', 400), (b'b', 300), (b'c', 200), (b'd', 100)]);
+            let b = mk(r, &[(b'a', 400), (b'b', 300)]);
+            let c = mk(r, &[(b'a', 400), (b'b', 300), (b'c', 200), (b'd', 100), (b'e', 50)]);
+            let d2 = mk(r, &[(b'a', 400)]);
+            let short = mk(r, &[(b'a', 40), (b'b', 30)]);
+            fse_decoder_sequence(&mut cx, p, &[a.clone(), b.clone(), c.clone(), a.clone(), d2.clone(), short.clone(), vec![], b.clone()], "subset_equal_counts");
+            fse_decoder_sequence(&mut cx, p, &[c.clone(), a.clone(), b.clone(), d2.clone()], "shrinking_alphabet");
+        }
+        for i in 0..(if th { 400 } else { 40 }) {
+            let n = r.range(2, 6) as usize;
+            let bl = *r.pick(&[100usize, 150, 1000, 4096]);
+            let base = payload(r, bl, i % KINDS);
+            let mut seq = vec![base.clone()];
+            for _ in 1..n {
+                seq.push(match r.below(4) {
+                    0 => { let keep: Vec<u8> = { let mut ks: Vec<u8> = base.clone(); ks.sort(); ks.dedup(); ks.into_iter().filter(|_| r.chance(1, 2)).collect() }; base.iter().cloned().filter(|b| keep.contains(b)).collect() }
+                    1 => { let l = *r.pick(&[99usize, 100, 300, 2000]); payload(r, l, (i + 3) % KINDS) }
+                    2 => shuffle(r, base.clone()),
+                    _ => base[..base.len() / 2].to_vec(),
+                });
+            }
+            fse_decoder_sequence(&mut cx, PRESETS[i % PRESETS.len()], &seq, "random_sequence");
+        }
     }
     // dictionary-seeded encoder
     for i in 0..(if th { 600 } else { 24 }) {
